@@ -79,10 +79,19 @@ enum Ev {
     Change(i32, i32, i32, i32, i32),
     Old(i32, i32, i32),
     Input(i32, [i32; 10]),
-    Other,
+    /// a record passed through unchanged: its canonical text
+    Other(String),
 }
 
 fn item_str(it: &Item) -> (String, Ev) {
+    let (s, ev) = item_str0(it);
+    match ev {
+        Ev::Other(_) => (s.clone(), Ev::Other(s)),
+        ev => (s, ev),
+    }
+}
+
+fn item_str0(it: &Item) -> (String, Ev) {
     match it {
         Item::TickStart(t) => (fields("TickStart", vec![i(*t)]), Ev::Start(*t)),
         Item::TickEnd(t) => (fields("TickEnd", vec![i(*t)]), Ev::End(*t)),
@@ -97,38 +106,38 @@ fn item_str(it: &Item) -> (String, Ev) {
             v.extend(p.input.iter().map(|x| i(*x)));
             (fields("Input", v), Ev::Input(p.cid, p.input))
         }
-        Item::Message(m) => (fields("Message", vec![i(m.cid), h(m.msg)]), Ev::Other),
-        Item::Join(m) => (fields("Join", vec![i(m.cid)]), Ev::Other),
-        Item::Drop(m) => (fields("Drop", vec![i(m.cid), h(m.reason)]), Ev::Other),
+        Item::Message(m) => (fields("Message", vec![i(m.cid), h(m.msg)]), Ev::Other(String::new())),
+        Item::Join(m) => (fields("Join", vec![i(m.cid)]), Ev::Other(String::new())),
+        Item::Drop(m) => (fields("Drop", vec![i(m.cid), h(m.reason)]), Ev::Other(String::new())),
         Item::ConsoleCommand(m) => {
             let mut v = vec![i(m.cid), m.flag_mask.to_string(), h(m.cmd)];
             v.extend(m.args.iter().map(|a| h(a)));
-            (fields("ConsoleCommand", v), Ev::Other)
+            (fields("ConsoleCommand", v), Ev::Other(String::new()))
         }
-        Item::Antibot(m) => (fields("Antibot", vec![h(m.data)]), Ev::Other),
-        Item::AuthInit(m) => (fields("AuthInit", vec![i(m.cid), i(m.level), h(m.identity)]), Ev::Other),
-        Item::AuthLogin(m) => (fields("AuthLogin", vec![i(m.cid), i(m.level), h(m.identity)]), Ev::Other),
-        Item::AuthLogout(m) => (fields("AuthLogout", vec![i(m.cid)]), Ev::Other),
+        Item::Antibot(m) => (fields("Antibot", vec![h(m.data)]), Ev::Other(String::new())),
+        Item::AuthInit(m) => (fields("AuthInit", vec![i(m.cid), i(m.level), h(m.identity)]), Ev::Other(String::new())),
+        Item::AuthLogin(m) => (fields("AuthLogin", vec![i(m.cid), i(m.level), h(m.identity)]), Ev::Other(String::new())),
+        Item::AuthLogout(m) => (fields("AuthLogout", vec![i(m.cid)]), Ev::Other(String::new())),
         Item::Ddnetver(m) => (
             fields("Ddnetver", vec![i(m.cid), h(m.connection_id.as_bytes()), i(m.ddnet_version), h(m.ddnet_version_str)]),
-            Ev::Other,
+            Ev::Other(String::new()),
         ),
-        Item::DdnetverOld(m) => (fields("DdnetverOld", vec![i(m.cid), i(m.ddnet_version)]), Ev::Other),
-        Item::Joinver6(m) => (fields("Joinver6", vec![i(m.cid)]), Ev::Other),
-        Item::Joinver7(m) => (fields("Joinver7", vec![i(m.cid)]), Ev::Other),
-        Item::PlayerFinish(m) => (fields("PlayerFinish", vec![i(m.cid), i(m.time_ticks)]), Ev::Other),
-        Item::PlayerName(m) => (fields("PlayerName", vec![i(m.cid), h(m.name)]), Ev::Other),
-        Item::PlayerReady(m) => (fields("PlayerReady", vec![i(m.cid)]), Ev::Other),
-        Item::PlayerRejoin(m) => (fields("PlayerRejoin", vec![i(m.cid)]), Ev::Other),
-        Item::PlayerSwap(m) => (fields("PlayerSwap", vec![i(m.cid1), i(m.cid2)]), Ev::Other),
-        Item::PlayerTeam(m) => (fields("PlayerTeam", vec![i(m.cid), i(m.team)]), Ev::Other),
-        Item::TeamFinish(m) => (fields("TeamFinish", vec![i(m.team), i(m.time_ticks)]), Ev::Other),
-        Item::TeamLoadFailure(m) => (fields("TeamLoadFailure", vec![i(m.team)]), Ev::Other),
-        Item::TeamLoadSuccess(m) => (fields("TeamLoadSuccess", vec![i(m.team), h(m.save_uuid.as_bytes()), h(m.save)]), Ev::Other),
-        Item::TeamPractice(m) => (fields("TeamPractice", vec![i(m.team), i(m.practice)]), Ev::Other),
-        Item::TeamSaveFailure(m) => (fields("TeamSaveFailure", vec![i(m.team)]), Ev::Other),
-        Item::TeamSaveSuccess(m) => (fields("TeamSaveSuccess", vec![i(m.team), h(m.save_uuid.as_bytes()), h(m.save)]), Ev::Other),
-        Item::UnknownEx(m) => (fields("UnknownEx", vec![h(m.uuid.as_bytes()), h(m.data)]), Ev::Other),
+        Item::DdnetverOld(m) => (fields("DdnetverOld", vec![i(m.cid), i(m.ddnet_version)]), Ev::Other(String::new())),
+        Item::Joinver6(m) => (fields("Joinver6", vec![i(m.cid)]), Ev::Other(String::new())),
+        Item::Joinver7(m) => (fields("Joinver7", vec![i(m.cid)]), Ev::Other(String::new())),
+        Item::PlayerFinish(m) => (fields("PlayerFinish", vec![i(m.cid), i(m.time_ticks)]), Ev::Other(String::new())),
+        Item::PlayerName(m) => (fields("PlayerName", vec![i(m.cid), h(m.name)]), Ev::Other(String::new())),
+        Item::PlayerReady(m) => (fields("PlayerReady", vec![i(m.cid)]), Ev::Other(String::new())),
+        Item::PlayerRejoin(m) => (fields("PlayerRejoin", vec![i(m.cid)]), Ev::Other(String::new())),
+        Item::PlayerSwap(m) => (fields("PlayerSwap", vec![i(m.cid1), i(m.cid2)]), Ev::Other(String::new())),
+        Item::PlayerTeam(m) => (fields("PlayerTeam", vec![i(m.cid), i(m.team)]), Ev::Other(String::new())),
+        Item::TeamFinish(m) => (fields("TeamFinish", vec![i(m.team), i(m.time_ticks)]), Ev::Other(String::new())),
+        Item::TeamLoadFailure(m) => (fields("TeamLoadFailure", vec![i(m.team)]), Ev::Other(String::new())),
+        Item::TeamLoadSuccess(m) => (fields("TeamLoadSuccess", vec![i(m.team), h(m.save_uuid.as_bytes()), h(m.save)]), Ev::Other(String::new())),
+        Item::TeamPractice(m) => (fields("TeamPractice", vec![i(m.team), i(m.practice)]), Ev::Other(String::new())),
+        Item::TeamSaveFailure(m) => (fields("TeamSaveFailure", vec![i(m.team)]), Ev::Other(String::new())),
+        Item::TeamSaveSuccess(m) => (fields("TeamSaveSuccess", vec![i(m.team), h(m.save_uuid.as_bytes()), h(m.save)]), Ev::Other(String::new())),
+        Item::UnknownEx(m) => (fields("UnknownEx", vec![h(m.uuid.as_bytes()), h(m.data)]), Ev::Other(String::new())),
     }
 }
 
@@ -372,8 +381,8 @@ enum Msg {
     Skip(i32),
     InputDiff(i32, [i32; 10]),
     InputNew(i32, [i32; 10]),
-    /// any other record, with its `cid` field if it has one
-    Other(Option<i32>),
+    /// any other record, with its `cid` field if it has one and the text of the item it must be reported as
+    Other(Option<i32>, String),
     Finish,
 }
 
@@ -451,27 +460,37 @@ fn split_records(stream: &[u8], has_ex: bool) -> Vec<Msg> {
                     if n < 0 {
                         return None;
                     }
+                    let d0 = c.p;
                     c.skip(n as usize)?;
-                    Msg::Other(Some(cid))
+                    Msg::Other(Some(cid), format!("Message({};{})", cid, to_hex(&c.b[d0..c.p])))
                 }
-                -8 => Msg::Other(Some(c.int()?)),
+                -8 => {
+                    let cid = c.int()?;
+                    Msg::Other(Some(cid), format!("Join({})", cid))
+                }
                 -9 => {
                     let cid = c.int()?;
+                    let s0 = c.p;
                     c.string()?;
-                    Msg::Other(Some(cid))
+                    Msg::Other(Some(cid), format!("Drop({};{})", cid, to_hex(&c.b[s0..c.p - 1])))
                 }
                 -10 => {
                     let cid = c.int()?;
-                    c.int()?;
+                    let flags = c.int()?;
+                    let mut parts = vec![cid.to_string(), (flags as u32).to_string()];
+                    let s0 = c.p;
                     c.string()?;
+                    parts.push(to_hex(&c.b[s0..c.p - 1]));
                     let n = c.int()?;
                     if n < 0 || n > 16 {
                         return None;
                     }
                     for _ in 0..n {
+                        let s0 = c.p;
                         c.string()?;
+                        parts.push(to_hex(&c.b[s0..c.p - 1]));
                     }
-                    Msg::Other(Some(cid))
+                    Msg::Other(Some(cid), format!("ConsoleCommand({})", parts.join(";")))
                 }
                 -11 if has_ex => {
                     let start = c.p;
@@ -486,8 +505,11 @@ fn split_records(stream: &[u8], has_ex: bool) -> Vec<Msg> {
                     // payload layout per doc/teehistorian.md (i int, s string, u uuid); a payload
                     // that is too short for its layout is not a complete record
                     let mut cid = None;
-                    if let Some((_, _, layout, has_cid)) = EX_LAYOUT.iter().find(|e| e.1 == uuid) {
-                        let mut pc = Cur { b: &c.b[pstart..pstart + n as usize], p: 0 };
+                    let payload = &c.b[pstart..pstart + n as usize];
+                    let text;
+                    if let Some((name, _, layout, has_cid)) = EX_LAYOUT.iter().find(|e| e.1 == uuid) {
+                        let mut pc = Cur { b: payload, p: 0 };
+                        let mut parts: Vec<String> = vec![];
                         for (k, f) in layout.chars().enumerate() {
                             match f {
                                 'i' => {
@@ -495,13 +517,30 @@ fn split_records(stream: &[u8], has_ex: bool) -> Vec<Msg> {
                                     if k == 0 && *has_cid {
                                         cid = Some(v);
                                     }
+                                    parts.push(v.to_string());
                                 }
-                                's' => pc.string()?,
-                                _ => pc.skip(16)?,
+                                's' => {
+                                    let s0 = pc.p;
+                                    pc.string()?;
+                                    parts.push(to_hex(&payload[s0..pc.p - 1]));
+                                }
+                                _ => {
+                                    let s0 = pc.p;
+                                    pc.skip(16)?;
+                                    parts.push(to_hex(&payload[s0..pc.p]));
+                                }
                             }
                         }
+                        if layout.is_empty() {
+                            parts.push(to_hex(payload)); // antibot: the whole payload
+                        }
+                        // snake_case -> CamelCase
+                        let camel: String = name.split('_').map(|w| w[..1].to_uppercase() + &w[1..]).collect();
+                        text = format!("{}({})", camel, parts.join(";"));
+                    } else {
+                        text = format!("UnknownEx({};{})", to_hex(uuid), to_hex(payload));
                     }
-                    Msg::Other(cid)
+                    Msg::Other(cid, text)
                 }
                 _ => return None,
             })
@@ -669,13 +708,13 @@ fn oracle_structure(stream: &[u8], has_ex: bool, out: &Out, o: &mut Oracle, ctx:
                     c == c2 && (0..10).all(|k| w(s[k]) == b[k])
                 }
             },
-            (Msg::Other(_), Ev::Other) => true,
+            (Msg::Other(_, want), Ev::Other(got)) => want == got,
             _ => false,
         };
         if !ok {
             let tag = match m {
                 Msg::InputNew(..) | Msg::InputDiff(..) => "C17/input-not-running-sum",
-                Msg::Other(_) => "C17/item-kind-mismatch",
+                Msg::Other(..) => "C17/item-differs-from-record",
                 _ => "C17/position-not-running-sum",
             };
             o.fail(tag, format!("record {:?} reported as {:?} {}", m, ev, ctx));
@@ -690,7 +729,7 @@ fn oracle_structure(stream: &[u8], has_ex: bool, out: &Out, o: &mut Oracle, ctx:
         .iter()
         .filter_map(|m| match m {
             Msg::Diff(c, _, _) | Msg::New(c, _, _) | Msg::Old(c) | Msg::InputDiff(c, _) | Msg::InputNew(c, _) => Some(*c),
-            Msg::Other(c) => *c,
+            Msg::Other(c, _) => *c,
             _ => None,
         })
         .max()
